@@ -213,8 +213,8 @@ def _on_alarm(signum, frame):
     raise _Timeout()
 
 
-HISTORY_LIMIT_S = 1.0          # a legitimate history takes a few milliseconds
-HISTORY_LIMIT_AFTER_S = 0.03   # once several histories have timed out the tree is broken anyway: do not wait long for the rest
+HISTORY_LIMIT_S = 5.0          # CPU seconds of this process (not wall clock: a loaded machine must not look like a hang); a legitimate history takes milliseconds
+HISTORY_LIMIT_AFTER_S = 0.5   # once several histories have timed out the tree is broken anyway: do not wait long for the rest
 _timeouts = [0]
 
 
@@ -231,8 +231,8 @@ def run_history(is_tag: bool, ops):
     cache: dict = {}
     armed = False
     try:
-        old = signal.signal(signal.SIGALRM, _on_alarm)
-        signal.setitimer(signal.ITIMER_REAL, HISTORY_LIMIT_S if _timeouts[0] < 3 else HISTORY_LIMIT_AFTER_S)
+        old = signal.signal(signal.SIGVTALRM, _on_alarm)
+        signal.setitimer(signal.ITIMER_VIRTUAL, HISTORY_LIMIT_S if _timeouts[0] < 3 else HISTORY_LIMIT_AFTER_S)
         armed = True
     except ValueError:      # not in the main thread: no guard available
         pass
@@ -254,8 +254,8 @@ def run_history(is_tag: bool, ops):
         out.append(("err timeout", "[ ]"))
     finally:
         if armed:
-            signal.setitimer(signal.ITIMER_REAL, 0)
-            signal.signal(signal.SIGALRM, old)
+            signal.setitimer(signal.ITIMER_VIRTUAL, 0)
+            signal.signal(signal.SIGVTALRM, old)
     return out
 
 
